@@ -725,6 +725,107 @@ theorem boundary_model {X : Type} (F : Func K) (d1 d2 : List Nat) (n side : Nat)
   simp only [hdrop, hget, hs2]
 
 
+
+theorem coeffsWeights_lengths (F : Func K) (m n : Nat) (hnc : F.ncomp = m + 1) (hlen : F.c.length = n * (m + 1)) :
+    F.coeffsWeights.2.length = n ∧ F.coeffsWeights.1.length = n * m := by
+  have hdiv : F.c.length / (m + 1) = n := by rw [hlen]; exact Nat.mul_div_cancel _ (by omega)
+  unfold Func.coeffsWeights
+  simp only [hnc, hdiv, Nat.add_sub_cancel]
+  exact ⟨by simp, length_flatMap_chunks n m _ (by intro I; simp)⟩
+
+/-- entries of `NurbsFunc.coeffs_weights()` -/
+theorem coeffsWeights_getD (F : Func K) (m n : Nat) (hnc : F.ncomp = m + 1) (hlen : F.c.length = n * (m + 1))
+    (I b : Nat) (hI : I < n) (hb : b < m) :
+    F.coeffsWeights.1.getD (I * m + b) 0 = F.at (I * (m + 1) + b) / F.at (I * (m + 1) + m) ∧
+    F.coeffsWeights.2.getD I 0 = F.at (I * (m + 1) + m) := by
+  have hdiv : F.c.length / (m + 1) = n := by rw [hlen]; exact Nat.mul_div_cancel _ (by omega)
+  unfold Func.coeffsWeights
+  simp only [hnc, hdiv, Nat.add_sub_cancel]
+  refine ⟨?_, ?_⟩
+  · rw [getD_flatMap_chunks 0 n m _ (by intro I; simp) I b hI hb, getD_map_range 0 _ _ b hb]
+    congr 2
+  · rw [getD_map_range 0 _ _ I hI]
+    congr 1
+
+theorem coeffsWeights_W_getD (F : Func K) (m n : Nat) (hnc : F.ncomp = m + 1) (hlen : F.c.length = n * (m + 1))
+    (I : Nat) (hI : I < n) : F.coeffsWeights.2.getD I 0 = F.at (I * (m + 1) + m) := by
+  have hdiv : F.c.length / (m + 1) = n := by rw [hlen]; exact Nat.mul_div_cancel _ (by omega)
+  unfold Func.coeffsWeights
+  simp only [hnc, hdiv]
+  rw [getD_map_range 0 _ _ I hI]
+  congr 1
+
+/-- **NurbsFunc.translate, on the model's list-level constructor**: de-premultiply
+(`coeffs_weights`), add the offset, premultiply again (`NurbsFunc.__init__`): the NURBS value
+(numerator spline / weight spline) is the old value plus the offset, at every node, every sdim;
+needs non-zero control weights and a non-zero weight function, no partition of unity. -/
+theorem translate_nurbs_model {X : Type} (F : Func K) (off : List K) (m : Nat) (B : Nat → X → Info K)
+    (ys : List X) (b : Nat)
+    (hnc : F.ncomp = m + 1) (hlen : F.c.length = F.npts * (m + 1)) (hl : ys.length = F.dims.length)
+    (hoff : off.length ∣ m) (hb : b < m)
+    (hw : ∀ I, I < F.npts → F.at (I * (m + 1) + m) ≠ 0)
+    (hW : F.toSpl.gridVal B ys m ≠ 0) :
+    (F.nurbsTranslate off).toSpl.gridVal B ys b / (F.nurbsTranslate off).toSpl.gridVal B ys m
+      = F.toSpl.gridVal B ys b / F.toSpl.gridVal B ys m + bcast off b := by
+  have hs := size_rows B F.dims ys (List.replicate F.dims.length 0) 0 hl (by simp)
+  obtain ⟨hWlen, hClen⟩ := coeffsWeights_lengths F m F.npts hnc hlen
+  have hpm : prod [F.ncomp - 1] = m := by simp [Index.prod, hnc]
+  -- the translated function, entry by entry
+  have hat : ∀ k b', k < F.npts → b' ≤ m → (F.nurbsTranslate off).at (k * (m + 1) + b')
+      = if b' < m then F.at (k * (m + 1) + b') + bcast off b' * F.at (k * (m + 1) + m)
+        else F.at (k * (m + 1) + m) := by
+    intro k b' hk hb'
+    unfold Func.nurbsTranslate
+    simp only
+    have := mkNurbs_at F.dims [F.ncomp - 1]
+      ((List.range F.coeffsWeights.1.length).map (fun i => F.coeffsWeights.1.getD i 0 + bcast off i))
+      F.coeffsWeights.2 false k b' (by rw [hWlen]; exact hk) (by rw [hpm]; exact hb')
+    rw [hpm] at this
+    rw [this, coeffsWeights_W_getD F m F.npts hnc hlen k hk]
+    by_cases hbm : b' < m
+    · rw [if_pos hbm, if_pos hbm]
+      have hidx : k * m + b' < F.coeffsWeights.1.length := by
+        rw [hClen]
+        calc k * m + b' < k * m + m := by omega
+          _ = (k + 1) * m := by ring
+          _ ≤ _ := Nat.mul_le_mul_right _ (by omega)
+      simp only [Bool.false_eq_true, if_false]
+      rw [getD_map_range 0 _ _ _ hidx, (coeffsWeights_getD F m F.npts hnc hlen k b' hk hbm).1,
+        bcast_mul_add off m k b' hoff]
+      have := hw k hk
+      field_simp
+    · rw [if_neg hbm, if_neg hbm]
+  have hnc' : (F.nurbsTranslate off).ncomp = m + 1 := by
+    have h1 : (F.nurbsTranslate off).ncomp = prod [F.ncomp - 1] + 1 := by
+      unfold Func.nurbsTranslate
+      simp [Func.ncomp, mkNurbs, Index.prod]
+    rw [h1, hpm]
+  have hnum : (F.nurbsTranslate off).toSpl.gridVal B ys b
+      = F.toSpl.gridVal B ys b + bcast off b * F.toSpl.gridVal B ys m := by
+    show contract (F.nurbsTranslate off).at (F.nurbsTranslate off).ncomp b
+        (rows B 0 F.dims ys (List.replicate F.dims.length 0)) 0
+      = contract F.at F.ncomp b (rows B 0 F.dims ys (List.replicate F.dims.length 0)) 0
+        + bcast off b * contract F.at F.ncomp m (rows B 0 F.dims ys (List.replicate F.dims.length 0)) 0
+    rw [hnc', hnc, contract_eq_nest, contract_eq_nest, contract_eq_nest, ← nest_smul, ← nest_add]
+    apply nest_congr_bounded
+    intro k hk
+    rw [hs] at hk
+    simp only [Nat.zero_mul, Nat.zero_add]
+    rw [hat k b hk (by omega), if_pos hb]
+  have hden : (F.nurbsTranslate off).toSpl.gridVal B ys m = F.toSpl.gridVal B ys m := by
+    show contract (F.nurbsTranslate off).at (F.nurbsTranslate off).ncomp m
+        (rows B 0 F.dims ys (List.replicate F.dims.length 0)) 0
+      = contract F.at F.ncomp m (rows B 0 F.dims ys (List.replicate F.dims.length 0)) 0
+    rw [hnc', hnc, contract_eq_nest, contract_eq_nest]
+    apply nest_congr_bounded
+    intro k hk
+    rw [hs] at hk
+    simp only [Nat.zero_mul, Nat.zero_add]
+    rw [hat k m hk (Nat.le_refl m), if_neg (Nat.lt_irrefl m)]
+  rw [hnum, hden]
+  field_simp
+
+
 /-! ## 4. circular arcs lie on exact circles -/
 
 /-- **one rational quadratic segment.**  Control points (premultiplied, as coded)
